@@ -1,33 +1,35 @@
 #!/bin/bash
-# tools/seed_matrix.sh [seed-id ...]: run the claimed check of each seeded change's property (and report
-# which other claimed checks also fire) on a scratch copy of /repo with the change applied.
-# Writes seeded/<id>/meta.json. Scratch copies live under /tmp and are removed.
+# tools/seed_matrix.sh [seed-id ...]: run every claimed check on a scratch copy of /repo with each seeded
+# change applied; record whether the seed's own property check detects it and which other checks fire
+# (with their first report line, for triage). Writes seeded/<id>/meta.json.
+# Scratch copies live under /tmp and are removed. Seeds run in parallel with a private copy of the binary.
 set -u
 HERE="$(cd "$(dirname "$0")/.." && pwd)"
 cd "$HERE"
-ids=("$@"); [ ${#ids[@]} -eq 0 ] && ids=($(ls seeded))
-claimed=$(python3 -c "import json;print(' '.join(c['property_id'] for c in json.load(open('MANIFEST.json'))['checks']))")
-for id in "${ids[@]}"; do
-  d="seeded/$id"; [ -f "$d/patch.diff" ] || continue
+if [ "${1:-}" = "--one" ]; then
+  id="$2"; BIN="$3"; claimed="$4"
+  d="seeded/$id"; [ -f "$d/patch.diff" ] || exit 0
   prop="${id%%-*}"
   T="$(mktemp -d /tmp/gv-seed.XXXXXX)"
   mkdir -p "$T/repo"; rsync -a --exclude .git /repo/ "$T/repo/"
   if ! (cd "$T/repo" && git init -q . 2>/dev/null && git apply --whitespace=nowarn "$HERE/$d/patch.diff" 2>/dev/null); then
-    echo "$id: patch no longer applies to the current /repo"; rm -rf "$T"; continue
+    echo "$id: patch no longer applies to the current /repo"; rm -rf "$T"; exit 0
   fi
-  fired=""; own="no"; detail=""
+  fired=""; own="no"; detail=""; others=""
   for P in $claimed; do
     mkdir -p "$T/v_$P"
-    out="$("$HERE/bin/gvcheck" -repo "$T/repo" -verif "$T/v_$P" -known "$HERE/known_findings.json" -prop "$P" -tier quick 2>&1)"; rc=$?
+    out="$("$BIN" -repo "$T/repo" -verif "$T/v_$P" -known "$HERE/known_findings.json" -prop "$P" -tier quick 2>&1)"; rc=$?
     if [ $rc -ne 0 ]; then
       fired="$fired $P"
-      if [ "$P" = "$prop" ]; then own="yes"; detail="$(echo "$out" | grep -E '^(VIOLATED|UNDECIDED)' | head -3 | sed "s#$T/repo/##g" | cut -c1-400)"; fi
+      first="$(echo "$out" | grep -E '^(VIOLATED|UNDECIDED)' | head -3 | sed "s#$T/repo/##g" | cut -c1-400)"
+      if [ "$P" = "$prop" ]; then own="yes"; detail="$first"; else others="$others
+[$P] $(echo "$first" | head -1)"; fi
     fi
   done
   rm -rf "$T"
-  python3 - "$d" "$prop" "$own" "$fired" "$detail" <<'PY'
-import json,sys,os,datetime
-d,prop,own,fired,detail=sys.argv[1:6]
+  python3 - "$d" "$prop" "$own" "$fired" "$detail" "$others" <<'PY'
+import json,sys,os
+d,prop,own,fired,detail,others=sys.argv[1:7]
 agent={}
 p=os.path.join(d,'meta.agent.json')
 if os.path.exists(p):
@@ -37,8 +39,15 @@ meta={"property":prop,"summary":agent.get("summary",""),"needs":agent.get("needs
  "demonstration":"demo_test.go.txt (copy into the package named in its header as a _test.go file) or demo/main.go",
  "confirmed":"tools/confirm_seed.sh in a scratch worktree: patch applies, go build/vet ok, full suite passes with the patch, demonstration fails with the patch and passes without",
  "what_i_ran":"tools/seed_matrix.sh %s"%os.path.basename(d),
- "detected_by_own_property_check":own=="yes","checks_that_fire":fired.split(),"report":detail.split("\n") if detail else []}
+ "detected_by_own_property_check":own=="yes","checks_that_fire":fired.split(),"report":detail.split("\n") if detail else [],
+ "other_checks_first_report":[l for l in others.split("\n") if l.strip()]}
 json.dump(meta,open(os.path.join(d,'meta.json'),'w'),indent=1)
 print(os.path.basename(d),"own:",own,"fired:",fired)
 PY
-done
+  exit 0
+fi
+ids=("$@"); [ ${#ids[@]} -eq 0 ] && ids=($(ls seeded))
+claimed=$(python3 -c "import json;print(' '.join(c['property_id'] for c in json.load(open('MANIFEST.json'))['checks']))")
+BIN="$(mktemp /tmp/gvcheck-matrix.XXXXXX)"; cp bin/gvcheck "$BIN"; chmod +x "$BIN"
+printf '%s\n' "${ids[@]}" | xargs -P 5 -I{} "$0" --one {} "$BIN" "$claimed" | sort
+rm -f "$BIN"
